@@ -68,6 +68,18 @@ func bases(tier string) []base {
 		add(s)
 	}
 	add(ukit.MapObjA("A"))
+	// objects whose id is not enforced (as root, as nested-scope root and as list item scope)
+	un := func(id string) *ukit.Spec {
+		return &ukit.Spec{Kind: ukit.KObject, ID: id, Unenforced: true, Props: []ukit.Prop{{Name: "k", Type: &ukit.Spec{Kind: ukit.KString}, Required: true}}}
+	}
+	add(&ukit.Spec{Kind: ukit.KScope, Root: "U", Objects: []*ukit.Spec{
+		{Kind: ukit.KObject, ID: "U", Unenforced: true, Props: []ukit.Prop{
+			{Name: "nested", Type: &ukit.Spec{Kind: ukit.KScope, Root: "N", Objects: []*ukit.Spec{un("N")}}},
+			{Name: "items", Type: &ukit.Spec{Kind: ukit.KList, Item: &ukit.Spec{Kind: ukit.KScope, Root: "I", Objects: []*ukit.Spec{un("I")}}}},
+			{Name: "r", Type: &ukit.Spec{Kind: ukit.KRef, RefID: "V"}},
+		}},
+		un("V"),
+	}})
 	add(&ukit.Spec{Kind: ukit.KObject, ID: "Mix", Props: []ukit.Prop{
 		{Name: "i", Type: &ukit.Spec{Kind: ukit.KInt, Min: ukit.I64(0), Max: ukit.I64(5), Units: "sec"}, Default: ukit.Str("2")},
 		{Name: "s", Type: &ukit.Spec{Kind: ukit.KString, Min: ukit.I64(1), Pattern: "^a+$"}, Required: true},
